@@ -130,7 +130,9 @@ class AsyncioQueue:
     real_class = asyncio.Queue
 
     def new(self, interp, cls, args, kwargs, fr):
-        return SObj(cls, {"maxsize": args[0] if args else kwargs.get("maxsize", 0)}, tag="queue")
+        ms = args[0] if args else kwargs.get("maxsize", 0)
+        interp.traces.setdefault("queues", []).append(("asyncio.Queue", ms))  # maxsize 0 = unbounded
+        return SObj(cls, {"maxsize": ms}, tag="queue")
 
     def symbolic(self, interp, name):
         return SObj(asyncio.Queue, {"maxsize": mk_int(interp.ctx.fresh(name + ".maxsize", z3.IntSort()))}, tag=name)
@@ -153,6 +155,7 @@ def _rt_builtins(interp):
 
     def open_memory_channel(a, k, fr):
         ch = SObj("trio:Channel", {"maxsize": a[0] if a else 0}, tag="channel")
+        interp.traces.setdefault("queues", []).append(("trio.open_memory_channel", a[0] if a else 0))
         return (SObj("trio:SendChannel", {"ch": ch}, tag="send_channel"), SObj("trio:ReceiveChannel", {"ch": ch}, tag="receive_channel"))
 
     def sleep(a, k, fr):
@@ -391,6 +394,9 @@ class _ExcGroupModel:
         rest = SObj(BaseExceptionGroup, {"args": (), "part_of": obj}) if has_r else None
         return (match, rest)
 
+    def get_exceptions(self, interp, obj, fr):
+        return SObj("pyvc:GroupMembers", {"group": obj}, tag="exceptions")
+
     def m_subgroup(self, interp, obj, args, kwargs, fr):
         m, _r = group_flags(interp, obj, args[0])
         if interp.ctx.branch(_flag(m), f"group has match@{fr.line}"):
@@ -399,6 +405,32 @@ class _ExcGroupModel:
 
 
 MODEL_BY_REAL[BaseExceptionGroup] = _ExcGroupModel()
+
+
+@register(name="pyvc:GroupMembers")
+class GroupMembersModel:
+    """error.exceptions of an exception group: the direct members (groups may be nested, so a
+    class that subgroup()/split() finds need not be among them)"""
+
+    def quantify(self, interp, obj, e, g, fr, is_any):
+        import ast as _ast
+
+        elt = e.elt
+        grp = obj.fields["group"]
+        if (is_any and not g.ifs and isinstance(elt, _ast.Call) and isinstance(elt.func, _ast.Name) and elt.func.id == "isinstance"
+                and len(elt.args) == 2 and isinstance(elt.args[0], _ast.Name) and isinstance(g.target, _ast.Name) and elt.args[0].id == g.target.id):
+            types = interp.ev(elt.args[1], fr)
+            m, _r = group_flags(interp, grp, types)
+            classes = types if isinstance(types, tuple) else (types,)
+            key = ",".join(sorted(getattr(c, "__name__", str(c)) for c in classes))
+            fld = f"direct:{key}"
+            if fld not in grp.fields:
+                d = z3.Bool(interp.ctx.fresh_name(f"group.direct-member[{key}]"))
+                interp.ctx.assume(z3.Implies(d, _flag(m)))  # a direct member is found by subgroup(); not conversely
+                grp.fields[fld] = SymBool(d)
+            return grp.fields[fld]
+        return SymBool(z3.Bool(interp.ctx.fresh_name("any" if is_any else "all")))
+
 
 
 # ------------------------------------------------------------------------------------ ghost clock
